@@ -22,13 +22,15 @@ structure DState where
   fbs : List (CfgId × List Key) -- handlers with dynamic upstreams: their static (fallback) upstream keys
   srcFails : Bool            -- the dynamic source currently answers with an error
   hbad : List Key            -- backends whose health endpoint answers 503
+  badDial : List (Nat × Key) -- request → the upstream key whose dial placeholder expands, for this request, to
+                             -- something that is not one dialable socket
   streaming : List Nat       -- requests whose response body is being copied (headers arrived, body not finished)
   wsReqs : List Nat          -- requests that asked for a protocol upgrade (Connection: Upgrade)
   wsStreaming : List Nat     -- …whose upgraded connection is open (a subset of `streaming`)
   aged : List Nat            -- requests that were already parked while a slow answer (`sl`) was being waited for:
                              -- their own round trip has taken longer than unhealthy_latency, whatever comes
 
-def dinit : DState := { s := init, cur := none, down := [], keys := [], iters := [], fbs := [], srcFails := false, hbad := [], streaming := [], wsReqs := [], wsStreaming := [], aged := [] }
+def dinit : DState := { s := init, cur := none, down := [], keys := [], iters := [], fbs := [], srcFails := false, hbad := [], badDial := [], streaming := [], wsReqs := [], wsStreaming := [], aged := [] }
 
 def stores (s : State) (c : CfgId) : List Key → Option State
   | [] => some s
@@ -96,6 +98,9 @@ def strikesN (s : State) (r : Nat) : Nat → Option State
 
 def keyDown (d : DState) (k : Key) : Bool := d.down.contains k
 
+/-- can the dial info of upstream key `k` not be filled in for request `r`? (hosts.go fillDialInfo) -/
+def dialBad (d : DState) (r : Nat) (k : Key) : Bool := d.badDial.contains (r, k)
+
 /-- run request `r` from the top of the proxy loop until it is parked in a backend (`P<key>`) or
     has returned (`err`); `fuel` bounds the loop iterations (≤ retries + 1) -/
 def advance : Nat → DState → Nat → Option (State × String)
@@ -113,6 +118,12 @@ def advance : Nat → DState → Nat → Option (State × String)
           | none => none
           | some s1 => if isDone s1 r then some (s1, "err") else advance fuel { d with s := s1 } r
         | some u =>
+          if dialBad d r u.1 then
+            -- reverseproxy.go:541-544: `return true, fmt.Errorf("making dial info: …")` — no retry, no counter
+            match step d.s (.dialInfoFails r) with
+            | none => none
+            | some s1 => some (s1, "err")
+          else
           match step d.s (.dispatch r u.2) with
           | none => none
           | some s1 =>
@@ -136,6 +147,7 @@ inductive SStep
   | srcFail (b : Bool)
   | health (k : Key) (ok : Bool)   -- the health endpoint of backend k starts passing / failing
   | round                          -- one round of active health checks of the loaded configuration
+  | newReqBad (get : Bool) (k : Key)   -- a request for which the dial placeholder of upstream k is undialable
   | newReqWs                -- a GET that asks for a protocol upgrade (websocket)
   | wsBegin (r : Nat)       -- the backend switches protocols (101): the connection stays open
   | streamBegin (r : Nat)   -- the backend sends a 200 header and the first part of the body, then pauses
@@ -264,6 +276,14 @@ def advanceDyn : Nat → DState → Nat → Option (DState × String)
                   if isDone s3 r then some (withIter d s3 r d.s.cfgs.length (keysOf d q.cfg), "err")
                   else advanceDyn fuel (withIter d s3 r d.s.cfgs.length (keysOf d q.cfg)) r
             | some u =>
+              if dialBad d r u.1 then
+                match step s1 (.dialInfoFails r) with
+                | none => none
+                | some s2 =>
+                  match unload s2 d.s.cfgs.length (keysOf d q.cfg) with
+                  | none => none
+                  | some s3 => some (withIter d s3 r d.s.cfgs.length (keysOf d q.cfg), "err")
+              else
               match step s1 (.dispatch r u.2) with
               | none => none
               | some s2 =>
@@ -417,6 +437,17 @@ def sstep (d : DState) : SStep → Option (DState × String)
       | some s1 =>
         if isDynReq s1 d.s.reqs.length then advanceAny { d with s := s1 } d.s.reqs.length
         else (advance fuel0 { d with s := s1 } d.s.reqs.length).map fun x => ({ d with s := x.1 }, x.2)
+  | .newReqBad get k =>
+    match curLive d with
+    | none => none
+    | some c =>
+      match step d.s (.newReq c get) with
+      | none => none
+      | some s1 =>
+        if isDynReq s1 d.s.reqs.length then
+          advanceAny { d with s := s1, badDial := (d.s.reqs.length, k) :: d.badDial } d.s.reqs.length
+        else (advance fuel0 { d with s := s1, badDial := (d.s.reqs.length, k) :: d.badDial } d.s.reqs.length).map fun x =>
+          ({ d with s := x.1, badDial := (d.s.reqs.length, k) :: d.badDial }, x.2)
   | .newReqWs =>
     match curLive d with
     | none => none
